@@ -128,7 +128,11 @@ func sequence(c *kit.Ctx, sc *scenario) *base {
 		finalChecks(c, &f, b, snaps[2])
 		b.a1Masked = normalize(b.a1, true)
 	}
-	report(c, sc, caseName, f, map[string]any{"steps": steps, "diff": diff})
+	extra := map[string]any{"steps": steps, "diff": diff, "packagesBefore": pkgsIn(b.s0)}
+	if len(snaps) > 0 {
+		extra["packagesAfterLastRun"] = pkgsIn(snaps[len(snaps)-1])
+	}
+	report(c, sc, caseName, f, extra)
 	if len(f) == 0 && c.WantSample() && len(b.s0) > 0 && len(sc.Installed) > 0 {
 		c.Sample(map[string]any{"case": caseName, "scenario": sc, "steps": steps,
 			"packages_before": pkgsIn(b.s0), "packages_after": pkgsIn(snaps[len(snaps)-1])})
